@@ -20,7 +20,7 @@ pub fn prop() -> Prop {
         id: "C16",
         run,
         max_len: 700,
-        quick: 60_000,
+        quick: 300_000,
         thorough: 2_500_000,
         rule: "choice sequence -> envelope from the union of all generators: library-built (route A), decoded from the harness encoder (route B: node-as-subject etc.), decoded structural/byte mutants that the decoder accepts, and DECORATED envelopes (on each of the known predicates 'signed', 'hasRecipient', 'sskrShare', 'isA', 'attachment', 'body', 'result', 'error', 'content', 'note', 'date', 'vendor', 'conformsTo', 'salt': a valid object, a bogus object, the assertion salted i.e. carrying its own assertions, the assertion / its object / its predicate elided, encrypted or compressed, and the predicate repeated) x 6-14 operations drawn from a table of 120 public entry points in the query / transform / obscure / verify / parse / format families with generated arguments (predicates present and absent, target sets, right and wrong keys, level limits, thresholds, salt lengths). oracle: every call returns (value, None or Err) — a panic is a violation, keyed by entry point and panic site. Calls whose documented contract is to panic are not in the table (add_assertions with a non-assertion, Response::with_result on a failure, expect_id, add_salt_in_range with an empty range). non-trivial: envelope has >=1 decorated or obscured element and >=1 op is not a pure getter; distinct by FNV-64 of (encoding, op indices)",
         assumptions: &["process aborts (stack overflow) are out of reach of catch_unwind; nesting depth is bounded by the generators (<= 10) and the decode stream (<= 64)"],
@@ -350,11 +350,17 @@ pub fn run(data: &[u8], ctx: &mut Ctx) -> Outcome {
     for _ in 0..n_ops {
         let i = src.below(N_OPS);
         ctx.fingerprint(&[i as u8]);
-        let target = if src.chance(64) {
-            let a = e.assertions();
-            if a.is_empty() { e.clone() } else { a[src.below(a.len())].clone() }
-        } else {
-            e.clone()
+        let target = match src.below(4) {
+            0 => {
+                let a = e.assertions();
+                if a.is_empty() { e.clone() } else { a[src.below(a.len())].clone() }
+            }
+            1 => {
+                // any element of the envelope (predicate, object, wrapped interior, obscured element ...)
+                let els = all_elements(&e);
+                els[src.below(els.len())].clone()
+            }
+            _ => e.clone(),
         };
         let mut name = "";
         let r = guard(|| {
@@ -373,6 +379,16 @@ pub fn run(data: &[u8], ctx: &mut Ctx) -> Outcome {
     let _ = (to_hashset, apply_elide, Obs::Elide, SymmetricKey::new);
     ctx.nontrivial = decorated_or_obscured && non_getter;
     Outcome::Pass
+}
+
+fn all_elements(e: &Envelope) -> Vec<Envelope> {
+    let out: std::cell::RefCell<Vec<Envelope>> = std::cell::RefCell::new(Vec::new());
+    let visitor = |env: Envelope, _l: usize, _e: EdgeType, _p: Option<()>| -> Option<()> {
+        out.borrow_mut().push(env);
+        None
+    };
+    e.walk(false, &visitor);
+    out.into_inner()
 }
 
 fn fail(ctx: &mut Ctx, sub: &str, key: &str, msg: String) -> Outcome {
